@@ -319,6 +319,7 @@ def fc_driver(plan, cfg, shell_header):
         pre = 'Requires' if p['requires'] else 'Provides'
         if p['exposed']['mc']:
             mcport = p
+            L.append('    if (argc < 2 || std::strcmp(argv[1], "zero")) {     // mode "zero": no client is registered before final construction')
             for cid in ('A', 'B'):
                 L.append(f'    auto& {p["name"]}_{cid} = shell.{pre}MultiClient{cap(p["name"])}("{cid}").port;')
                 for e in p['itf']['events']:
@@ -326,6 +327,7 @@ def fc_driver(plan, cfg, shell_header):
                         L.append(f'    if (verif::skip_user() != {k}) {p["name"]}_{cid}.out.{e["name"]} = {MM.handler(p["name"] + "@" + cid, e, "USER")};')
                         index.append((k, f'{p["name"]}@{cid}.out.{e["name"]}'))
                         k += 1
+            L.append('    }')
         else:
             L.append(f'    auto& {p["name"]}_u = shell.{pre}{cap(p["name"])}().port;')
             for e in p['itf']['events']:
@@ -339,7 +341,7 @@ def fc_driver(plan, cfg, shell_header):
     if mcport:
         pre = 'Provides'
         L.append(f'    try {{ (void)shell.{pre}MultiClient{cap(mcport["name"])}("LATE"); std::cout << "LATE-REGISTRATION-ACCEPTED\\n"; }} catch (const std::exception& e) {{ std::cout << "LATE-REGISTRATION-REFUSED\\n"; }}')
-        L.append(f'    try {{ (void)shell.{pre}MultiClient{cap(mcport["name"])}("A"); std::cout << "KNOWN-CLIENT-OK\\n"; }} catch (const std::exception& e) {{ std::cout << "KNOWN-CLIENT-REFUSED\\n"; }}')
+        L.append(f'    if (argc < 2 || std::strcmp(argv[1], "zero")) try {{ (void)shell.{pre}MultiClient{cap(mcport["name"])}("A"); std::cout << "KNOWN-CLIENT-OK\\n"; }} catch (const std::exception& e) {{ std::cout << "KNOWN-CLIENT-REFUSED\\n"; }}')
     # final construction may be repeated (e.g. after re-parenting): whenever a call returns, the parent it was given is recorded
     L.append('    dzn::meta parent2; parent2.name = "parent2";')
     L.append('    for (dzn::meta* given : {&parent2, static_cast<dzn::meta*>(nullptr), &parent}) {')
